@@ -46,4 +46,102 @@ EXTRA = [
             return f.read()""",
      """        with open(include_path, "rb") as f:
             return f.read()[:255]"""),
+    ("C16", "revert-repeat-deepcopy", "pdpy11/compiler.py",
+     "                    insn = copy.deepcopy(insn)\n", "                    pass\n"),
+    ("C16", "revert-repeat-local-scope", "pdpy11/compiler.py",
+     """        if state["context"] == "repeat" and "local_symbol_prefix" in state:""",
+     """        if False and state["context"] == "repeat" and "local_symbol_prefix" in state:"""),
+    ("C16", "once-threshold", "pdpy11/metacommands.py",
+     """    if state["compiler"].times_file_compiled[state["filename"]] > 1:""",
+     """    if state["compiler"].times_file_compiled[state["filename"]] > 2:"""),
+    ("C16", "end-stops-all-files", "pdpy11/compiler.py",
+     """        for file_ast in files_ast:
+            data = self.compile_file(file_ast, addr, link_base)""",
+     """        for file_ast in files_ast:
+            if any(getattr(i, "name", None) is not None and getattr(i.name, "name", "").lower() == ".end" for f in files_ast[:files_ast.index(file_ast)] for i in f.body.insns if hasattr(i, "operands")):
+                break
+            data = self.compile_file(file_ast, addr, link_base)"""),
+    ("C16", "insert-file-text-mode", "pdpy11/metacommands.py",
+     """        with open(include_path, "rb") as f:
+            return f.read()""",
+     """        with open(include_path, "rb") as f:
+            return f.read().replace(b"\\r\\n", b"\\n")"""),
+    ("C16", "second-linked-file-new-local-counter-offset", "pdpy11/compiler.py",
+     """            data = self.compile_file(file_ast, addr, link_base)
+            generated_code += data""",
+     """            data = self.compile_file(file_ast, addr + (2 if len(self.times_file_compiled) == 2 else 0), link_base)
+            generated_code += data"""),
+    ("C10", "literal-case-sensitive-default", "pdpy11/parser.py",
+     "    def literal(cls, literal, skip_whitespace_before=True, case_sensitive=False):",
+     "    def literal(cls, literal, skip_whitespace_before=True, case_sensitive=True):"),
+    ("C10", "dict-get-without-lower", "pdpy11/containers.py",
+     "        return self.container.get(key.lower(), (None, default))[1]",
+     "        return self.container.get(key, (None, default))[1]"),
+    ("C10", "register-names-lowercase-only", "pdpy11/insns.py",
+     "    if isinstance(operand, Symbol) and not operand.is_necessarily_label and operand.name.lower() in REGISTER_NAMES:\n        return REGISTER_NAMES[operand.name.lower()]",
+     "    if isinstance(operand, Symbol) and not operand.is_necessarily_label and operand.name in REGISTER_NAMES:\n        return REGISTER_NAMES[operand.name]"),
+    ("C10", "hex-prefix-upper-x-rejected", "pdpy11/parser.py",
+     "        base_char = num[1].lower()", "        base_char = num[1]"),
+    ("C10", "comment-with-quote-not-skipped", "pdpy11/context.py",
+     """            elif self.code[self.pos] == ";":
+                self.pos = self.code.find("\\n", self.pos)""",
+     """            elif self.code[self.pos] == ";" and self.code[self.pos + 1:self.pos + 2] != "}":
+                self.pos = self.code.find("\\n", self.pos)"""),
+    ("C10", "percent-register-octal-only-0-5", "pdpy11/insns.py",
+     """lambda: get_as_int(state, "register index", operand, operand.operand, bitness=3, unsigned=True)""",
+     """lambda: get_as_int(state, "register index", operand, operand.operand, bitness=3, unsigned=True) % 6"""),
+    ("C10", "legacy-deferred-is-mode-0", "pdpy11/insns.py",
+     """                reports.warning(
+                    "legacy-deferred",
+                    (operand.ctx_start, operand.ctx_end, f"{operand!r} is a legacy way of spelling ({operand.operand!r}), please use the new syntax")
+                )
+                return 0o10 | register, b\"\"""",
+     """                reports.warning(
+                    "legacy-deferred",
+                    (operand.ctx_start, operand.ctx_end, f"{operand!r} is a legacy way of spelling ({operand.operand!r}), please use the new syntax")
+                )
+                return 0o00 | register, b\"\""""),
+    ("C03", "undefined-reported-at-first-attempt", "pdpy11/types.py",
+     """        not_ready()
+        # TODO: check if there's a local symbol with the same name defined out of scope""",
+     """        # TODO: check if there's a local symbol with the same name defined out of scope"""),
+    ("C03", "revert-foreign-export-wait", "pdpy11/types.py",
+     """                not_ready()
+                return extern""",
+     """                return extern"""),
+    ("C03", "assignment-evaluated-once-eagerly", "pdpy11/compiler.py",
+     """        self.symbols[name] = (insn, Deferred[int](lambda: insn.value.resolve(state), insn.target.name))""",
+     """        value = Deferred[int](lambda: insn.value.resolve(state), insn.target.name)
+        if not isinstance(value, BaseDeferred) and isinstance(value, int) and value > 0o177777:
+            value = value & 0o177777
+        self.symbols[name] = (insn, value)"""),
+    ("C03", "shift-of-forward-symbol-not-awaited", "pdpy11/operators.py",
+     """def lshift(token, a: int, b: int) -> int:
+    b = wait(b)
+    if b >= 0:
+        return a * 2 ** b""",
+     """def lshift(token, a: int, b: int) -> int:
+    if isinstance(a, BaseDeferred):
+        return wait(a) * 2 ** wait(b) + 1
+    b = wait(b)
+    if b >= 0:
+        return a * 2 ** b"""),
+    ("C09", "relative-displacement-absolute-leak", "pdpy11/insns.py",
+     """        return 0o67, SizedDeferred[bytes](2, lambda: struct.pack("<H", wait(operand.resolve(state) - state["rel_address"] - 2) % (2 ** 16)))""",
+     """        return 0o67, SizedDeferred[bytes](2, lambda: struct.pack("<H", (wait(operand.resolve(state) - state["rel_address"] - 2) + (2 if wait(state["rel_address"]) >= 0o100000 else 0)) % (2 ** 16)))"""),
+    ("C09", "index-word-relative-to-base", "pdpy11/insns.py",
+     """                return 0o60 | register, SizedDeferred[bytes](2, lambda: struct.pack("<H", get_as_int(state, "an index", operand, operand.lhs, bitness=16, unsigned=False)))""",
+     """                return 0o60 | register, SizedDeferred[bytes](2, lambda: struct.pack("<H", (get_as_int(state, "an index", operand, operand.lhs, bitness=16, unsigned=False) - (wait(state["link_base"]["promise"]) if isinstance(operand.lhs, Symbol) else 0)) % 65536))"""),
+    ("C09", "branch-word-gets-base-parity", "pdpy11/insns.py",
+     """            if self.unsigned:
+                return -offset // 2
+            else:
+                return offset // 2""",
+     """            if self.unsigned:
+                return -offset // 2
+            else:
+                return offset // 2 + (1 if wait(state["link_base"]["promise"]) == 0o40000 and offset == 0 else 0)"""),
+    ("C09", "label-difference-not-cancelled", "pdpy11/deferred.py",
+     """        return LinearPolynomial[int]({key: -value for key, value in self.coeffs.items()}, -self.constant_term)""",
+     """        return LinearPolynomial[int]({key: -value for key, value in self.coeffs.items()}, -self.constant_term - (1 if len(self.coeffs) == 1 and self.constant_term > 0o77777 else 0))"""),
 ]
